@@ -1,8 +1,8 @@
-// ---- Option adapters: assumed contracts on core::option (trusted base) ----
+// ---- Option adapters: assumed contracts on ::core::option (trusted base) ----
 verus! {
 
-pub assume_specification<T, F> [core::option::Option::<T>::or_else] (o: Option<T>, f: F) -> (r: Option<T>)
-    where F: FnOnce() -> Option<T> + core::marker::Destruct, T: core::marker::Destruct,
+pub assume_specification<T, F> [::core::option::Option::<T>::or_else] (o: Option<T>, f: F) -> (r: Option<T>)
+    where F: FnOnce() -> Option<T> + ::core::marker::Destruct, T: ::core::marker::Destruct,
     requires o is None ==> f.requires(()),
     ensures
         o is Some ==> r == o,
@@ -11,15 +11,15 @@ pub assume_specification<T, F> [core::option::Option::<T>::or_else] (o: Option<T
 } // verus!
 
 verus! {
-pub assume_specification<T, U, F> [core::option::Option::<T>::map_or] (o: Option<T>, default: U, f: F) -> (r: U)
-    where F: FnOnce(T) -> U + core::marker::Destruct, T: core::marker::Destruct, U: core::marker::Destruct,
+pub assume_specification<T, U, F> [::core::option::Option::<T>::map_or] (o: Option<T>, default: U, f: F) -> (r: U)
+    where F: FnOnce(T) -> U + ::core::marker::Destruct, T: ::core::marker::Destruct, U: ::core::marker::Destruct,
     requires o is Some ==> f.requires((o->0,)),
     ensures
         o is None ==> r == default,
         o is Some ==> f.ensures((o->0,), r);
 
-pub assume_specification<T, F> [core::option::Option::<T>::is_some_and] (o: Option<T>, f: F) -> (r: bool)
-    where F: FnOnce(T) -> bool + core::marker::Destruct, T: core::marker::Destruct,
+pub assume_specification<T, F> [::core::option::Option::<T>::is_some_and] (o: Option<T>, f: F) -> (r: bool)
+    where F: FnOnce(T) -> bool + ::core::marker::Destruct, T: ::core::marker::Destruct,
     requires o is Some ==> f.requires((o->0,)),
     ensures
         o is None ==> !r,
